@@ -810,3 +810,28 @@ def queue_append_only(ck, F, rule="QUEUE-APPEND"):
                           "%s calls %s on send_queue: only push may touch the queue outside flush_send_queue (a removed entry is a change the replicas never see)" % (me, last),
                           f, l, sample={"fn": me, "method": last})
     ck.note("send_queue_uses", n)
+
+
+def replay_pure(ck, F, rule="WMC-history"):
+    """Replay does not record: the transitive write effects of apply_diff_list and apply_undo_diff_list contain neither
+    of the history stacks nor the send queue (a replay arm that calls a recording UserModel entry point instead of the
+    Model method of the same name clears the redo stack and duplicates the change)."""
+    P = Program(F)
+    bad_fields = {(HISTORY, "undo_stack"), (HISTORY, "redo_stack"), (USERMODEL, "send_queue")}
+    for fn in ("apply_diff_list", "apply_undo_diff_list"):
+        b = ck.need(F.one, "UserModel::" + fn)
+        eff = P.effects(b.path)
+        hit = sorted(e for e in eff if e in bad_fields)
+        # name the call that brings the effect in
+        via = None
+        if hit:
+            for bi, t in b.calls():
+                c = b.callee(t)
+                if c in F.heads and any(e in P.effects(c) for e in hit):
+                    via = (bi, F.qname_of(c).split("::", 1)[-1])
+                    break
+        f, l = b.loc(via[0]) if via else (b.file, b.line)
+        ck.ob(rule, "%s|records-nothing" % fn, not hit,
+              "%s can write %s (through %s): replaying a change records it again -- the redo stack is cleared in the middle of a redo and "
+              "replicas receive the change twice" % (fn, ["%s.%s" % (e[0].rsplit("::", 1)[-1], e[1]) for e in hit], via[1] if via else "?"), f, l,
+              sample={"fn": fn})
